@@ -10,9 +10,12 @@ def run(ctx):
     RR.empty_query_comparator(ctx, "R12.a", comps)
     RR.limit_provenance(ctx, "R12.b")
     RR.bounded_selection(ctx, "R12.b")
-    RR.search_chain_shape(ctx, "R12.c", parts=("result", "branch", "comparator"))
+    RR.search_chain_shape(ctx, "R12.c", parts=("result-id", "branch", "comparator"))
     RR.hit_filter(ctx, "R12.c")
     RR.position_mapping(ctx, "R12.c")
+    from . import r_token as RK
+    RK.class_predicates(ctx, "R12.f")
+    RK.sibling_agreement(ctx, "R12.f", "R12.f", stages_too=False, only=("query",))
     RS.memo_coherence(ctx, "R12.d")
     RS.consistency_group(ctx, "R12.d", frame=False)
     RR.priorities(ctx, "R12.e", "R12.e", match_before_rating=False)
